@@ -1,8 +1,29 @@
 # C14 — the producer delivers every message once, unmodified and in order (raw socket).
 # The REAL producer.Run against a localhost sink that closes / resets after a chosen number of
 # lines and listens again after a chosen downtime.
-import re
+import re, hashlib
 from props.common import hx
+
+
+def gen_msg(seed, j, size):
+    """the j-th synthetic message of a pstall run: the same octets as genMsg in harness/cmd/impl/pstall.go"""
+    x = (seed * 2654435761 + j * 40503) & 0xffffffff
+    n = (size + (j * 37) % 1000) // 9
+    pad = "".join(["%08x%s" % ((x + i) & 0xffffffff, "%" if i % 64 == 7 else ".") for i in range(n)])
+    return ('{"seq":%d,"pad":"%s"}' % (j, pad)).encode()
+
+
+def digest(b):
+    return "%d:%s:%s" % (len(b), hashlib.sha1(b).hexdigest()[:16], b[:24].hex())
+
+
+def kernel_buffer_octets():
+    try:
+        w = int(open("/proc/sys/net/ipv4/tcp_wmem").read().split()[2])
+        r = int(open("/proc/sys/net/ipv4/tcp_rmem").read().split()[2])
+        return w + r
+    except Exception:
+        return 64 << 20
 
 
 class P:
@@ -27,8 +48,90 @@ class P:
             body = b'"v":"' + bytes(rng.choice(b"abc%xyz") for _ in range(rng.randrange(0, 40))) + b'"'
         return head + body + b"}"
 
-    def cases(self, tier, rng, budget):
+    def stall_cases(self, tier, rng):
+        """backpressure: the sink stays connected but stops reading while megabytes are handed over, so that the producer is
+        blocked in the MIDDLE of a message; it then resumes, or resets the connection, or reads part of a message and resets"""
         out = []
+        shapes = [(80, 100000), (300, 30000), (40, 400000)]
+        scripts = [(0, "R%(a)d S300 X"), (1, "R%(a)d S300"), (2, "R%(a)d S300 B%(k)d X"), (3, "R%(a)d S300 X R%(b)d S400 X"),
+                   (4, "S300 F"), (5, "R%(a)d S300 R%(b)d S300"), (6, "R%(a)d S6500"), (7, "R%(a)d S6500 X")]
+        long_stalls = [] if tier == "quick" else ["R%(a)d S12000", "R%(a)d S35000", "R%(a)d S2500", "R%(a)d S1200 B%(k)d S1200"]
+        reps = 1 if tier == "quick" else 6
+        for rep in range(reps):
+            for si, sc in scripts + [(8 + i, x) for i, x in enumerate(long_stalls if rep == 0 else [])]:
+                if rep > 0 and si in (6, 7):
+                    continue          # the multi-second stalls once per run
+                n, size = shapes[(si + rep) % 3] if tier != "quick" else shapes[si % 3]
+                retry = (si + rep) % 4 if si != 0 else 2
+                script = sc % {"a": rng.randrange(0, 6), "b": rng.randrange(1, 6), "k": rng.choice([1, 4096, 70000, 131072])}
+                seed = rng.randrange(1, 1 << 30)
+                line = "pstall %d %d %d %d %s" % (retry, seed, n, size, script)
+                self.meta[line] = ("stall", retry, seed, n, size, script)
+                out.append(line)
+        return out
+
+    def info(self, line):
+        """the case description, rebuilt from the line itself when it comes from a replay file or the corpus"""
+        if line in self.meta:
+            return self.meta[line]
+        f = line.split(" ")
+        if f[0] == "pstall":
+            return ("stall", int(f[1]), int(f[2]), int(f[3]), int(f[4]), " ".join(f[5:]))
+        fi, mi = f.index("F"), f.index("M")
+        fs = [int(x) for x in f[fi + 1:mi]]
+        return (f[1], int(f[2]), int(f[3]), [tuple(fs[i:i + 3]) for i in range(0, len(fs), 3)], [bytes.fromhex(x[1:]) for x in f[mi + 1:]])
+
+    def run_impl(self, lines):
+        import vf
+        return vf.run_impl(lines, shards=8)
+
+    def judge_stall(self, line, impl):
+        _, retry, seed, n, size, script = self.info(line)
+        if "PANIC" in impl or "RUN=" in impl or not impl.startswith("C1"):
+            return "producer crashed or hung against a stalling sink: " + impl[-160:]
+        n += 8           # the trailing messages handed over once the sink is through its script
+        msgs = [gen_msg(seed, j, size) + b"\n" for j in range(n)]
+        index = {digest(m): j for j, m in enumerate(msgs)}
+        parts = impl.split(" | ")
+        ec = int([p for p in parts if p.startswith("EC=")][0][3:])
+        nconn = int([p for p in parts if p.startswith("CONNS=")][0][6:])
+        last, delivered = -1, 0
+        for p in parts:
+            if not re.match(r"C\d+( |$)", p):
+                continue
+            toks = [t for t in p.split(" ")[1:] if t]
+            for ti, t in enumerate(toks):
+                if t.startswith("P"):
+                    ln_ = int(t[1:].split(":")[0])
+                    if ti != len(toks) - 1:
+                        return "octets without a newline in the middle of a connection's stream"
+                    if not any(ln_ < len(m) and digest(m[:ln_]) == t[1:] for m in msgs[last + 1:]):
+                        return ("connection %s ended with %d octets (starting %r) that are not the beginning of a message handed over after message %d"
+                                % (p.split(" ")[0], ln_, bytes.fromhex(t.split(":")[2]), last))
+                    continue
+                if t not in index:
+                    return ("the sink received a line of %s octets starting %r, which is not a message handed to the producer plus a newline (script %s, retry-max %d)"
+                            % (t.split(":")[0], bytes.fromhex(t.split(":")[2]), script, retry))
+                if index[t] <= last:
+                    return "message %d was delivered %s" % (index[t], "twice" if index[t] == last else "out of order")
+                last = index[t]
+                delivered += 1
+        faults = script.count("X") + script.count("F")
+        if faults == 0:
+            if delivered != n or ec != 0 or nconn != 1:
+                return ("the sink only stalled (the connection never broke), yet %d of %d messages were delivered, MQErrorCount=%d, %d connection(s) (script %s)"
+                        % (delivered, n, ec, nconn, script))
+        else:
+            if last != n - 1:
+                return "delivery did not resume after the sink reset the connection: the last message delivered is %d of %d (retry-max %d, script %s)" % (last, n - 1, retry, script)
+            lost_octets = sum(len(m) for m in msgs) - sum(len(msgs[index[t]]) for p in parts if re.match(r"C\d+ ", p) for t in p.split(" ")[1:] if t in index)
+            bound = faults * (kernel_buffer_octets() + (1 << 21) + (retry + 3) * max(len(m) for m in msgs))
+            if lost_octets > bound:
+                return "%d octets of messages lost around %d reset(s); the kernel can hold at most %d per connection" % (lost_octets, faults, bound)
+        return None
+
+    def cases(self, tier, rng, budget):
+        out = self.stall_cases(tier, rng)
         for i in range(budget):
             k = i % 6
             proto = "udp" if k == 5 else "tcp"
@@ -51,7 +154,9 @@ class P:
         return out
 
     def judge(self, line, impl, model):
-        proto, retry, gap, faults, msgs = self.meta[line]
+        if self.info(line)[0] == "stall":
+            return self.judge_stall(line, impl)
+        proto, retry, gap, faults, msgs = self.info(line)
         if "PANIC" in impl or "HANG" in impl or not impl.startswith("LINES"):
             return "producer crashed or hung: " + impl[-120:]
         m = re.match(r"LINES (.*?) ?\| EC=(\d+) \| CONNS=(\d+)", impl)
@@ -84,22 +189,32 @@ class P:
         return None
 
     def classify(self, line, impl, model):
-        proto, retry, gap, faults, msgs = self.meta[line]
+        if self.info(line)[0] == "stall":
+            return ("tcp stalling sink: " + re.sub(r"\d+", "N", self.info(line)[5]), line)
+        proto, retry, gap, faults, msgs = self.info(line)
         return ("%s retry=%d faults=%d" % (proto, retry, len(faults)), line)
 
     def tie_obligations(self):
-        return 0
+        return 1      # C14_send_loop_is_the_modelled_one over Gen/RawSocket.v
 
     def rule(self):
         return ("per case: tcp (5/6) or udp (1/6) raw-socket producer, retry-max 0..3, 1-100 messages with printf verbs (%d %% %! %[1]d), "
                 "multi-kilobyte bodies (1000..40000 octets, incl. 4095/4096/4097), arbitrary octets; half of the tcp cases make the sink "
                 "close (FIN) or reset (RST) after 0-7 lines, once or twice, with 0/30/120 ms downtime, messages handed over 3 ms apart. "
                 "Checked: every received line is a handed-over message + newline, strictly increasing order, nothing twice; no faults => "
-                "all delivered and no error counted (and equal to the model's stream); faults => bounded loss and the LAST message arrives")
+                "all delivered and no error counted (and equal to the model's stream); faults => bounded loss and the LAST message arrives. "
+                "BACKPRESSURE (pstall): 4-12 MB of 30-400 kB messages handed over at once to a scripted sink that stops reading for "
+                "0.3 s (and once 6.5 s; thorough also 1.2/2.5/12/35 s) so that the producer is blocked in the MIDDLE of a message, then "
+                "resumes / resets the connection / reads part of a message and resets, once or twice; per connection every complete line "
+                "must be a handed-over message (sha1), strictly increasing, the unterminated tail a proper prefix of a later message; "
+                "stall only => everything delivered, MQErrorCount 0, one connection; resets => the last message arrives and the octets "
+                "lost fit the kernel's socket buffers")
 
     def trusted_base(self):
         return ["Coq 8.16.1 kernel",
                 "hand model coq/Model/Producer.v of the send/retry loop over a fault oracle (a failed Write delivered nothing; a nil Write delivered the whole line or lost it)",
+                "hand model coq/Model/ProducerConn.v: the same loop with PARTIAL writes per connection, under the assumption dead_ok (a connection that returned an error stays failed: kernel TCP without deadlines)",
+                "translator /verif/extract/rawsocket.go (go/ast): write form, retry loop, methods called on the connection -> Gen/RawSocket.v",
                 "Go harness harness/cmd/impl/producer.go: real producer.Run + faulting localhost sink",
                 "the kernel's TCP behaviour after FIN/RST (which error the next writes return)"]
 
